@@ -565,11 +565,12 @@ class RemoteWorker(Worker, metaclass=RemoteWorkerMeta):
             self._child = mp.get_context('spawn').Process(target=self._run_backend, name=f'{self.name}')
             # let the owner (server, context) know about us before the child process exists, otherwise a shutdown request
             # arriving before we are returned to it would leave the child behind
+            self._pid = None # so far it was the pid of the parent: nobody on this side should ever signal that one
             registry = self.__dict__.pop('_registry', None)
             if registry is not None:
                 registry.append(self)
             self._child.start()
-            self._pid = self._child.pid # until now it was the pid of the parent, nobody should ever signal that one
+            self._pid = self._child.pid
             self._dead = False
 
             # Clean up things which are only needed in the backend
